@@ -162,8 +162,10 @@ def gen_scene(rng, small):
     ny = rng.randint(5, 8 if small else 12)
     nx = rng.randint(6, 10 if small else 16)
     kind = rng.choice(['gauss', 'gauss', 'multi', 'multi', 'multi', 'faint', 'faint', 'interlock', 'interlock',
-                       'touch', 'touch', 'touch',
+                       'touch', 'touch', 'bump', 'bump', 'bump',
                        'clusters', 'plateau', 'ridge', 'hand', 'noise'])
+    if kind == 'bump':
+        return kind, bump_scene(rng)
     if kind == 'touch':
         # a compact group of 2-4 sources; the detected segment(s) are afterwards CUT into touching
         # pieces (gen_case), so parents have bright neighbours inside their bounding boxes
@@ -278,6 +280,62 @@ def gen_scene(rng, small):
     return kind, data
 
 
+def bump_scene(rng):
+    """A faint parent with one real peak next to a bright TOUCHING neighbour that lies (partly) inside the
+    parent's bounding box, as in hand-edited / merged maps: the data are discontinuous across the common
+    border.  b parent pixels adjacent to the neighbour form a local bump (brighter than the parent
+    pixels around them, fainter than the parent's peak); b is smaller than, equal to or larger than the
+    npixels used for deblending.  Returns data, label map, npixels."""
+    ny, nx = rng.randint(6, 10), rng.randint(10, 16)
+    y, x = np.mgrid[:ny, :nx]
+    amp = rng.choice([8, 10, 20, 40])
+    yc, xc = rng.uniform(2, ny - 3), rng.uniform(3, nx / 2)
+    sy, sx = rng.choice([0.8, 1.2, 2.0]), rng.choice([2.0, 3.0, 4.0])
+    faint = amp * np.exp(-((y - yc) ** 2 / (2 * sy * sy) + (x - xc) ** 2 / (2 * sx * sx)))
+    faint = np.round(faint * 4) / 4
+    parent = faint >= rng.choice([0.25, 0.5, 1.0])
+    if rng.random() < 0.5:      # a tail, so that the bounding box is larger than the blob
+        parent[int(round(yc)), :] |= x[0] >= int(xc)
+        faint = np.maximum(faint, np.where(parent, 0.25, 0))
+    pts = np.argwhere(parent)
+    # the neighbour: a compact blob around a point on the far (faint) side of the parent
+    far = pts[np.argsort(-(np.abs(pts[:, 1] - xc) + 0.1 * np.abs(pts[:, 0] - yc)))][:max(1, len(pts) // 6)]
+    qy, qx = far[rng.randrange(len(far))]
+    qy += rng.choice([-1, 0, 1])
+    rad = rng.choice([1.0, 1.5, 2.0])
+    neigh = (np.hypot(y - qy, x - qx) <= rad) & (np.hypot(y - yc, x - xc) > 1.5)
+    if not neigh.any():
+        neigh[min(max(qy, 0), ny - 1), qx] = True
+    parent &= ~neigh
+    if rng.random() < 0.3:      # neighbour entirely outside the parent's bounding box: shift it away
+        pass
+    bright = rng.choice([3, 5, 10, 30]) * amp
+    data = np.where(neigh, np.round(bright * np.exp(-((y - qy) ** 2 + (x - qx) ** 2) / 8.0)), faint)
+    data = np.where(parent | neigh, data, 0.0)
+    seg = np.zeros((ny, nx), int)
+    a, b = (1, 2) if rng.random() < 0.5 else (2, 1)
+    seg[parent], seg[neigh] = a, b
+    npix = rng.choice([2, 3, 3, 4, 5])
+    # the bump: parent pixels touching the neighbour (8- or 4-adjacent)
+    four = rng.random() < 0.5
+    adj = []
+    for (py, px) in np.argwhere(parent):
+        for dy in (-1, 0, 1):
+            for dx in (-1, 0, 1):
+                if (dy or dx) and (not four or abs(dy) + abs(dx) == 1):
+                    qy2, qx2 = py + dy, px + dx
+                    if 0 <= qy2 < ny and 0 <= qx2 < nx and neigh[qy2, qx2]:
+                        adj.append((py, px))
+    adj = sorted(set(adj))
+    nb = rng.choice([0, 1, 1, npix - 1, npix - 1, npix, npix + 1])
+    if adj and nb:
+        start = adj[rng.randrange(len(adj))]
+        adj.sort(key=lambda q: abs(q[0] - start[0]) + abs(q[1] - start[1]))
+        for (py, px) in adj[:nb]:
+            data[py, px] = max(data[py, px] + 0.5, np.round(amp * rng.choice([0.4, 0.6, 0.8]) * 4) / 4)
+    return data, seg, npix
+
+
 def cut_segments(seg, rng):
     ny, nx = seg.shape
     y, x = np.mgrid[:ny, :nx]
@@ -305,6 +363,9 @@ def cut_segments(seg, rng):
 def gen_case(rng, small=False):
     from photutils.segmentation import detect_sources
     kind, data = gen_scene(rng, small)
+    preset = None
+    if kind == 'bump':
+        data, preset, npix_bump = data
     ny, nx = data.shape
     conn_det = rng.choice([4, 8])
     npix_det = rng.choice([1, 2, 3, 5])
@@ -317,8 +378,8 @@ def gen_case(rng, small=False):
         thr, npix_det = 10, rng.choice([1, 2, 3])
     if kind == 'touch':
         thr, npix_det = rng.choice([0.5, 1, 2]), rng.choice([1, 2, 3])
-    seg = None
-    if kind != 'hand':
+    seg = preset
+    if kind not in ('hand', 'bump'):
         with warnings.catch_warnings():
             warnings.simplefilter('ignore')
             s = detect_sources(data, thr, npix_det, connectivity=conn_det)
@@ -412,6 +473,10 @@ def gen_case(rng, small=False):
         data = data.copy()
         data[iy, ix] = rng.choice([0.0, -0.5, -2.0])
         flavour.append('nonpos-pixel-in-one-segment')
+    if kind == 'bump' and rng.random() < 0.9:
+        npix = npix_bump
+        nlevels = rng.choice([8, 16, 32, 32])
+        contrast = rng.choice([0, 0, 0.001])
     if kind == 'touch' or 'second-pass' in flavour or 'cut-into-touching-pieces' in flavour:
         if rng.random() < 0.8:
             npix = rng.choice([2, 3, 3, 4, 5])
@@ -432,7 +497,7 @@ def gen_case(rng, small=False):
         mode = 'bad'
     labels = None
     r = rng.random()
-    if kind in ('faint', 'interlock') and r < 0.45 and rng.random() < 0.7:
+    if kind in ('faint', 'interlock', 'bump') and r < 0.45 and rng.random() < 0.7:
         r = 0.9
     if r < 0.45:
         k = rng.randint(1, len(labs))
@@ -827,6 +892,50 @@ def independence(case, picks, orders):
     return bad
 
 
+def _outside(case, l, fill, seed, keep_others):
+    """The case with every pixel outside parent l's mask given other data (and optionally the other
+    segments removed from the label map)."""
+    import random as _random
+    r = _random.Random(seed)
+    seg = case['seg']
+    d = np.array(case['data'], dtype=case['data'].dtype)
+    m = seg == l
+    top = float(np.max(d[m]))
+    if fill == 'zero':
+        other = np.zeros(d.shape)
+    elif fill == 'bright':
+        other = np.full(d.shape, 8 * abs(top) + 8)
+    else:
+        other = np.array([[r.choice([-1.0, 0.0, 0.5, 1.0]) * (abs(top) + 1) * r.choice([0.5, 1, 3])
+                           for _ in range(d.shape[1])] for _ in range(d.shape[0])])
+    d2 = np.where(m, d, other.astype(d.dtype))
+    seg2 = seg if keep_others else np.where(m, seg, 0).astype(seg.dtype)
+    return dict(case, data=d2, seg=seg2)
+
+
+def isolation(case, picks, variants):
+    """The markers and the watershed of a source are restricted to its own mask: what happens to parent
+    l depends on the data inside l's mask only.  variants = [(fill, seed, keep_others)]."""
+    bad = []
+    if case.get('redeblend'):
+        return bad
+    for l in picks:
+        ref = _pattern(case, [l], l)
+        if ref[0] == 'exc':
+            continue
+        for (fill, seed, keep) in variants:
+            got = _pattern(_outside(case, l, fill, seed, keep), [l], l)
+            if got != ref:
+                bad.append(('deblend_sources:source-depends-on-pixels-outside-its-mask',
+                            f'parent {l} is split differently when the data outside its mask are replaced ({fill}'
+                            f'{"" if keep else ", other segments removed"})',
+                            {'case': describe(case), 'isolation': {'label': int(l), 'fill': fill, 'seed': seed,
+                                                                   'keep_others': bool(keep)},
+                             'original': ref, 'modified': got, 'cmd': 'bin/check C06 --replay <this file>'}))
+                break
+    return bad
+
+
 # --------------------------------------------------------------------------
 def describe(case):
     d = case['data']
@@ -882,7 +991,8 @@ def run(ctx):
         'bounding boxes, compact groups whose segments are cut into touching pieces (Voronoi cells / stripes: 4- and '
         '8-adjacent neighbours inside each other\'s bounding boxes, slivers smaller than npixels next to bright '
         'neighbours), outputs of an earlier deblend_sources pass fed back in (fresh image or the object itself, '
-        'different npixels/contrast/labels), clusters, '
+        'different npixels/contrast/labels), faint parents with a bump of fewer / exactly / more than npixels pixels '
+        'next to a bright touching neighbour inside their bounding box (discontinuous data, as in edited maps), clusters, '
         'the same scenes on pedestals 0/1e3/1e5/1e7 with amplitudes 1/0.1/0.01, scaled by 2^+-40, float32 inputs, '
         'plateaus, ridges with saddles, noise, hand-made segmentations incl. disconnected parents) -> '
         'detect_sources or hand labels; label gaps and '
@@ -910,7 +1020,9 @@ def run(ctx):
         'cannot be enumerated)',
         'per_source_independent is about the merge: equal watershed output for parent l => equal child pattern; '
         'that the un-modelled threshold/watershed stage of source l looks at nothing but source l is tested by '
-        'the independence oracle (alone = together = shuffled = reversed label lists)',
+        'the independence oracle (alone = together = shuffled = reversed label lists) and by the isolation oracle '
+        '(the split of a parent is unchanged when the data outside its mask are replaced by zeros / bright / '
+        'random values, with and without the other segments in the label map)',
         'labels are unbounded naturals in the model; the integer dtype enters only through the ValueError of '
         'fix C06-1 (final max_label > dtype maximum); nproc=None (cpu_count) and the progress bar are not modelled',
         'input_not_written is immediate for the functional model (it has no aliasing); the clause is tied to the '
@@ -970,6 +1082,13 @@ def run(ctx):
                 for sig, msg, detail in independence(case, picks, [lab, sh, list(reversed(lab))]):
                     ctx.violation(sig, msg, detail)
                 ctx.support('oracle:per-source-independence', len(picks))
+            if big and not case.get('redeblend') and len(np.unique(seg_now)) > 1:
+                pick = ctx.rng.choice(big)
+                variants = [(ctx.rng.choice(['zero', 'bright', 'random']), ctx.rng.randrange(10 ** 6), True),
+                            (ctx.rng.choice(['zero', 'bright', 'random']), ctx.rng.randrange(10 ** 6), False)]
+                for sig, msg, detail in isolation(case, [pick], variants):
+                    ctx.violation(sig, msg, detail)
+                ctx.support('oracle:source-depends-only-on-its-mask', 1)
         # schedules: the nproc>1 code path with an in-process executor.  First in submission
         # order (this also tells how many futures the call really submits), then under every
         # other completion order (few tasks) or reversed + random ones (many tasks)
@@ -1100,6 +1219,10 @@ def replay(obj):
     if r.get('independence'):
         ind = r['independence']
         viol += [(sg_, msg) for sg_, msg, _ in independence(case, [ind['label']], [ind['labels']])]
+    if r.get('isolation'):
+        iso = r['isolation']
+        viol += [(sg_, msg) for sg_, msg, _ in
+                 isolation(case, [iso['label']], [(iso['fill'], iso['seed'], iso['keep_others'])])]
     if nproc != 1 and order:
         _, _, _, _, res1 = run_one(case, 1, None)
         if strip_res(res1) != strip_res(res):
